@@ -178,6 +178,8 @@ class Module:
             raise RuntimeError(msg)
         # Special case(s)
         if key == "name":
+            if val is not None and not isinstance(val, str):
+                raise TypeError(f"Module name must be a string, not {val}")
             return super().__setattr__(key, val)
 
         # Check it's a valid attribute-type
